@@ -148,5 +148,18 @@ Definition prim_index_to_cursor (p : list Z) (index : val) : outcome * Z :=
   | _ => (PErr ETyp, 0)
   end.
 
+(** sexp_string_utf8_ref (sexp.c:1252-1264), reached from SEXP_OP_STRING_REF after the test
+    0 <= i < size: the lead byte p[i] alone decides how many bytes are read (1 for ASCII and for
+    the bytes answered with "invalid utf8 byte", else 2, 3 or 4); there is no test against size. *)
+Definition utf8_ref_len (c : Z) : Z :=
+  if c <? 128 then 1
+  else if (c <? 192) || (247 <? c) then 1
+  else if c <? 224 then 2
+  else if c <? 240 then 3
+  else 4.
+
+Definition prim_utf8_ref (p : list Z) (i : Z) : region :=
+  mkreg (data_cap (Z.of_nat (length p))) i (utf8_ref_len (nth (Z.to_nat i) p 0)).
+
 (** part 3 (stack growth) has no hand-written model: Gen/C01_Stack.v is translated from vm.c and
     C01/StackProofs.v proves the policy about the translated functions directly. *)
